@@ -20,8 +20,34 @@ pub(crate) fn compress(data: &[u8]) -> Result<Vec<u8>> {
 
     // Use ASCII mode with 2KB dictionary as default for MPQ archives
     // This provides good compression ratio for most data types
-    implode_bytes(data, CompressionMode::ASCII, DictionarySize::Size2K)
-        .map_err(|e| compression_error("PKWare", e))
+    implode_verified(data, CompressionMode::ASCII, DictionarySize::Size2K)
+}
+
+/// Run the pklib encoder and make sure its output decodes to the input again
+///
+/// The encoder only handles what fits into its work buffer: for inputs above 8708
+/// bytes it encodes the first 8708 bytes twice and drops the rest, and a single byte
+/// is encoded as an empty stream. It reports success in both cases, so the result is
+/// decoded here and anything that does not reproduce the input is an error instead
+/// of silently damaged data.
+fn implode_verified(
+    data: &[u8],
+    mode: CompressionMode,
+    dict_size: DictionarySize,
+) -> Result<Vec<u8>> {
+    let compressed =
+        implode_bytes(data, mode, dict_size).map_err(|e| compression_error("PKWare", e))?;
+
+    match decompress(&compressed, data.len()) {
+        Ok(decoded) if decoded == data => Ok(compressed),
+        _ => Err(compression_error(
+            "PKWare",
+            format!(
+                "the encoder cannot represent this input of {} bytes faithfully",
+                data.len()
+            ),
+        )),
+    }
 }
 
 /// Longest code of the literal, length and distance code sets
@@ -246,7 +272,7 @@ pub(crate) fn compress_with_options(
         return Ok(Vec::new());
     }
 
-    implode_bytes(data, mode, dict_size).map_err(|e| compression_error("PKWare", e))
+    implode_verified(data, mode, dict_size)
 }
 
 #[cfg(test)]
